@@ -95,7 +95,7 @@ structure DS where
   synced : List (Nat × List Op) := []   -- (index just after an fsync, entries loadable from the disk then), newest first
   tickSyncs : Bool := true      -- fileWriterHandler → chronicler.Sync → FileWriter.Sync → fsync, all present
   mres : List String := []      -- result text of each operation of `mops` (C25; "ok" otherwise)
-  fc : FCfg := ⟨true, false, false⟩
+  fc : FCfg := ⟨true, false, false, false⟩
   rs : List Res := []           -- results announced for the next region (C25)
   firstFault : Option String := none
   phantom : List Nat := []      -- header bytes of a block whose header write fails in this region (C25)
@@ -157,12 +157,16 @@ def DS.syncedAt (s : DS) (i : Nat) : List Op :=
 
 def isPrefixOf (a b : List Op) : Bool := a.length ≤ b.length && b.take a.length == a
 
+/-- `p.k.v.sz` / `d.k.sz`, optionally `…*N` for N copies -/
 def parseItems (str : String) : List (Op × Nat) :=
-  (str.splitOn ",").filterMap fun it =>
-    match it.splitOn "." with
-    | ["p", k, v, sz] => some (Op.put (nat k) (nat v), nat sz)
-    | ["d", k, sz] => some (Op.del (nat k), nat sz)
-    | _ => none
+  (str.splitOn ",").flatMap fun it =>
+    let (body, times) := match it.splitOn "*" with
+      | [b, n] => (b, nat n)
+      | _ => (it, 1)
+    match body.splitOn "." with
+    | ["p", k, v, sz] => List.replicate times (Op.put (nat k) (nat v), nat sz)
+    | ["d", k, sz] => List.replicate times (Op.del (nat k), nat sz)
+    | _ => []
 
 def parseOrder (str : String) : List (Nat × Nat) :=
   if str == "-" || str == "skip" then [] else
@@ -296,7 +300,12 @@ def step (h : Hooks) (s0 : DS) (line : String) : DS × String :=
         (s1.push (compactVia s.cfg s.mk' s1.mdisk .fromIndex (parseOrder order) s.bs),
          if stale then some "load" else s1.staleEp)
     let s3 := { s2 with staleEp := stale }
-    if s.respec then ({ s3 with spec := st, respec := false }, pendingText s ++ "ok " ++ showIndex st)
+    if s.respec then
+      -- the file was cut by hand (a first crash): what this load returns is the new baseline — it is
+      -- on the disk, so a later crash must keep it, and the resumed session appends to it
+      let base := loadedEntries s.cfg s1.mdisk
+      ({ s3 with spec := st, respec := false, wr := base, synced := [(s3.mops.length, base)] },
+       pendingText s ++ "ok " ++ showIndex st)
     else (s3, pendingText s ++ "ok " ++ showIndex st ++ h.flagLoad s3 st)
   | "plant" :: rest =>
     match parseLogOp s rest with
